@@ -112,7 +112,7 @@ CHECKS = {
         rule="fault = truncation at a cut point: for every generated encoding of at most 4 KiB every strict prefix is decoded "
              "(longer ones: first and last 256 cuts plus 256 random); each must give Err — Ok or a panic is a violation; "
              "distinct = distinct (type, prefix) pairs",
-        floors={"any": {"rejected": 100000, "rejected_unknown_length_form": 10000, "cross_version_rejected": 10000, "big_values_ok": 50}},
+        floors={"any": {"prefixes_of_skipping_codecs_rejected": 40, "rejected": 100000, "rejected_unknown_length_form": 10000, "cross_version_rejected": 10000, "big_values_ok": 50}},
     ),
     "C09": dict(
         claim="Held on N observed executions: flat streams of deduplicated / plain string writes (all patterns up to length 4, 5 in the thorough tier, over a 7-string alphabet; random longer ones) are written by the library and compared byte for byte with a reference string table (first occurrence = plain string, repeat = zig-zag varint of minus its id, ids from 1 in first-occurrence order), read back, and probed with ids that were never introduced; plus every subject type containing deduplicated strings (tuples, sequences, v0 and evolved records with and without names in the header). One stream with 70 000 distinct ids (140 000 in the thorough tier) exercises two- and three-byte back-references.",
@@ -131,7 +131,7 @@ CHECKS = {
         quick=NATIVE + [("miri", 0.008, {"shards": 16, "max_nodes": 2})],
         thorough=NATIVE + [("asan", 1.0), ("memcheck", 0.2), ("miri", 0.005, {"shards": 16, "max_nodes": 3})],
         rule="graphs enumerated exhaustively up to the node bound (all ordered edge lists of length 0..2 per node, all nodes reachable), random beyond; non-trivial = some node is offered more than once (sharing, cycle or self-loop); distinct by adjacency structure",
-        floors={"any": {"same_address_objects_of_different_types_kept_apart": 1, "graphs_rebuilt_isomorphic": 500, "unknown_object_numbers_rejected": 500, "embedded_graph_rebuilt": 500, "embedded_graph_bytes_ok": 500}},
+        floors={"any": {"zero_sized_objects_tracked_like_any_other": 1, "same_address_objects_of_different_types_kept_apart": 1, "graphs_rebuilt_isomorphic": 500, "unknown_object_numbers_rejected": 500, "embedded_graph_rebuilt": 500, "embedded_graph_bytes_ok": 500}},
     ),
     "C11": dict(
         claim="Thorough tier: exhaustive — all 2^32 bit patterns, each as u32 and as i32, are written to Vec<u8>, BytesMut and SizeCalculator, compared with the reference LEB128 / zig-zag formula, checked for minimal length and continuation bits, and read back through SliceInput, OwnedInput and DeserializationContext (release build, 16 shards). Quick tier: every value within 4096 of each width boundary plus a 2^20-point random sample, debug and release. Every value is additionally written and read as chunk-0 / chunk-1 / chunk-2 field of an evolved record (chunk buffers on the way out, input regions with non-zero start on the way back).",
@@ -187,7 +187,7 @@ CHECKS = {
         level="fault_enumeration",
         quick=NATIVE, thorough=NATIVE + [("asan", 0.3)],
         rule="faults: truncation at every offset, bit flip at every bit (small frames), header rewrites to {0, -1, +1, x2, 2^31, 2^32-1}; non-trivial = all; distinct by frame bytes",
-        floors={"any": {"blocks_into_a_compressing_sink_ok": 100, "frames_round_trip": 300, "truncations_rejected": 5000, "corrupted_ok:bitflip": 1000, "corrupted_err:bitflip": 1000, "frames_identical_through_contexts_and_size_exact": 300}},
+        floors={"any": {"compressed_lengths_at_width_boundaries_ok": 9, "blocks_into_a_compressing_sink_ok": 100, "frames_round_trip": 300, "truncations_rejected": 5000, "corrupted_ok:bitflip": 1000, "corrupted_err:bitflip": 1000, "frames_identical_through_contexts_and_size_exact": 300}},
     ),
     "C17": dict(
         claim="Held on N observed executions: all 1 112 064 Unicode scalar values are encoded (BMP: 2 bytes big-endian; others: UnsupportedCharacter with that character); zero-sized sequences, slices and exact-size iterators of length i32::MAX+1 .. usize::MAX give LengthTooLarge (4 GiB / 2 GiB byte and string buffers in the thorough tier); a declaration referencing an unknown field gives UnknownFieldReferenceInEvolutionStep through every sink; a declaration with the maximum of 255 metadata steps round-trips; value-domain extremes of the time and big-number types; and generated values of every subject type (astral characters allowed) give Ok or exactly the documented error predicted by the reference encoder. A panic or an undocumented variant is a violation.",
@@ -209,7 +209,7 @@ CHECKS = {
         thorough=[("dbg", 1.0), ("rel", 1.0), ("dbg", 1.0, {"mode": "baseline"}), ("rel", 1.0, {"mode": "baseline"}), ("tsan", 0.2), ("tsan", 0.2, {"mode": "baseline"})],
         custom="c18_miri_probe",
         rule="a case = one call (encode + decode of a generated value) compared with the reference; distinct_nontrivial counts first-use storms (one per type and process: the contended initialisation of that type's lazy statics) plus Miri schedule seeds; floor: at least 200 storms with two or more first calls in flight together",
-        floors={"any": {"defaults_evaluated_for_each_call": 1, "storms_with_overlapping_first_calls": 200, "call_histories": 1000, "steady_state_calls": 100000, "miri_schedule_seeds_ok": 8}},
+        floors={"any": {"calls_during_thread_teardown_ok": 1, "defaults_evaluated_for_each_call": 1, "storms_with_overlapping_first_calls": 200, "call_histories": 1000, "steady_state_calls": 100000, "miri_schedule_seeds_ok": 8}},
         post=lambda counters: [
             (f"C18|metadata_built_differs|{k.split(':', 2)[2]}",
              dict(check="C18", mode="init_counter", process=k, under_contention=v, single_threaded=counters.get(k.replace(":storm:", ":baseline:"))))
